@@ -15,7 +15,10 @@ the same order, the order inside one polling pass being the iteration order of a
 canonicalised), the same driver writes and the same API results; every healthy port is polled in every tick; each
 faulty port keeps the value of its last successful read while it fails, is not read during the retry interval after a
 raising read, is read again by the first pass after it, and shows what its driver returns once a read succeeds;
-a failing write is reported to its submitter.
+a failing write is reported to its submitter (API request or synchronous handler), and the pass that delivered the
+event finishes; a port created under the id of a removed one is a new port (polled at once). A hub that stops making
+progress shows as "healthy port not polled in tick k" / "never answered"; a dead-locked hub ends the case through a
+virtual-time watchdog (asyncio.wait_for around every run), never a harness hang.
 Correspondence: the observed action skeleton of runs A and B (passes with their times, driver writes, API
 submissions, expression evaluations, source changes) is replayed on QtVerif.Model.Faults through Driver/C15.lean; compared per action: heart
 beats and reads (port, outcome) in order, events per handler, write value/outcome/result, and at the end of every
@@ -90,7 +93,9 @@ class C15(Prop):
             'scripts for read (ok / garbage value / None / SkipRead / raise one of 16 Exception types), heart_beat_second '
             '(raise) and write_value (raise) of the faulty ports in on/off bursts; scripted source changes at tick '
             'boundaries; API writes to healthy and faulty writable ports at mid-tick; handlers raising on faulty ports\' '
-            'events; tick interval 125 ms - 4 s so that the 10 s retry interval is crossed (incl. the exact boundary); '
+            'events; a synchronous handler that mirrors healthy sources to (faulty and healthy) actuators from inside the '
+            'polling pass; a (broken or healthy) port removed and a healthy port created under the same id, preferably '
+            'inside the back-off window; tick interval 125 ms - 4 s so that the 10 s retry interval is crossed (incl. the exact boundary); '
             'each case = 3 real runs (faults / faulty ports absent / never failing) + 2 model replays. Non-trivial: at '
             'least one fault happened AND a healthy port changed value; distinct = distinct healthy event history + '
             'fault kinds')
